@@ -925,13 +925,38 @@ func _recover(n *node) {
 		}
 
 		if isEmptyInterface(n.typ) {
-			dest(f).Set(reflect.ValueOf(f.anc.recovered))
+			dest(f).Set(recoveredValue(f.anc.recovered))
 		} else {
-			dest(f).Set(reflect.ValueOf(valueInterface{n, reflect.ValueOf(f.anc.recovered)}))
+			dest(f).Set(reflect.ValueOf(valueInterface{n, recoveredValue(f.anc.recovered)}))
 		}
 		f.anc.recovered = nil
 		return tnext
 	}
+}
+
+// recoveredValue returns the value given to panic. The panic builtin raises
+// the reflect.Value of its operand: unwrap it, so that the value returned by
+// recover has the dynamic type of the original operand (type assertions and
+// type switches on it work as in compiled code).
+func recoveredValue(r interface{}) reflect.Value {
+	rv, ok := r.(reflect.Value)
+	if !ok {
+		return reflect.ValueOf(r)
+	}
+	for rv.IsValid() {
+		if rv.Kind() == reflect.Interface && !rv.IsNil() {
+			rv = rv.Elem()
+			continue
+		}
+		if rv.CanInterface() {
+			if vi, ok := rv.Interface().(valueInterface); ok {
+				rv = vi.value
+				continue
+			}
+		}
+		break
+	}
+	return rv
 }
 
 func _panic(n *node) {
